@@ -121,13 +121,17 @@ def execute(row, seed, version=None, share=False):
             return real_write(packet, force)
         c.write_packet = noting_write
 
-        def effect_visible(kd, occ):
+        dc_ran = []
+
+        def effect_visible(kd, occ, name='OI'):
             # is the built-in reaction to this packet occurrence already in effect?
             if kd == 'A':
                 return occ in answered
             if kd == 'C':
                 return bool(c.options.compression_enabled) and c.options.compression_threshold == THR0 + occ
             if kd == 'D':
+                if st == 'play' and dc_ran:
+                    return name == 'OI'     # a listener has closed the socket already: the reaction's own close cannot be told apart
                 return (c.socket is None) if st == 'play' else type(c.reactor).__name__ == 'PlayingReactor'
             return False
         c.connect()
@@ -158,13 +162,16 @@ def execute(row, seed, version=None, share=False):
 
             def cbk(pkt, name=name, i=(0 if share else i), l=l):
                 kd, occ = kind_occ(pkt)
-                log.append([name, i, kd, occ, 1 if (name in ('EI', 'OI') and effect_visible(kd, occ)) else 0])
+                log.append([name, i, kd, occ, 1 if (name in ('EI', 'OI') and effect_visible(kd, occ, name)) else 0])
+                if l.get('dc'):
+                    dc_ran.append(1)
+                    c.disconnect(immediate=True)        # a listener may close its connection: only 'ignore' stops later stages
                 if l['ig']:
                     raise IgnorePacket
             if share:
                 # one and the same callable for every registration of this list with this behaviour: each registration
                 # still is a listener of its own, at its own place in the order
-                cbk = shared.setdefault((name, l['ig']), cbk)
+                cbk = shared.setdefault((name, l['ig'], bool(l.get('dc'))), cbk)
             if j % 2:
                 c.register_packet_listener(cbk, *types, early=early, outgoing=outgoing)
             else:                       # the decorator spelling of the same registration
@@ -257,11 +264,15 @@ def run(chk):
     for j in range(n_big):
         st = rng.choice(['play', 'play', 'login'])
         def lst(mx):
-            return [{'f': rng.choice(FILT), 'ig': rng.random() < 0.25} for _ in range(rng.randint(0, mx))]
+            return [{'f': rng.choice(FILT), 'ig': rng.random() < 0.25, 'dc': False} for _ in range(rng.randint(0, mx))]
         kinds = ['A', 'A', 'U', 'B'] if st == 'play' else ['A', 'A', 'U']
         if rng.random() < 0.35:
             kinds = kinds + ['C']
-        row = {'EI': lst(3), 'OI': lst(3), 'EO': lst(3), 'OO': lst(3), 'st': st, 'batch': rng.random() < 0.5, 'forced': True,
+        ei = lst(3)
+        if ei and rng.random() < 0.2:
+            d_ = rng.choice(ei)
+            d_['dc'], d_['ig'] = True, False
+        row = {'EI': ei, 'OI': lst(3), 'EO': lst(3), 'OO': lst(3), 'st': st, 'batch': rng.random() < 0.5, 'forced': True,
                'hist': [rng.choice(kinds) for _ in range(rng.randint(1, 6))] + ['D']}
         row['shared'] = (j % 3 == 2)
         run_, log, wire, closed, version = execute(row, chk.seed * 31337 + j, share=row['shared'])
